@@ -107,8 +107,8 @@ def run_processes(ctx, n, thorough):
 
 
 ENVS = [{'TZ': 'UTC0', 'LANG': 'C'}, {'TZ': 'JST-9', 'LANG': 'en_US.UTF-8', 'HOME': '/nonexistent'}, {'TZ': 'America/Los_Angeles', 'LC_ALL': 'tr_TR.UTF-8', 'COLUMNS': '40'}]
-DATE_RULES = ('let t1 = parse_epoch(ts_plain)\nlet t2 = parse_epoch(ts_z)\nrule plain_ts { %t1 > 1700000000 }\nrule z_ts { %t2 == 1704067200 }\n'
-              'rule upper { to_upper(name) == "İSTANBUL" or to_upper(name) == "ISTANBUL" }\nrule lower { to_lower(name) == "istanbul" }\n')
+DATE_RULES = ('let t1 = parse_epoch(ts_plain)\nlet t2 = parse_epoch(ts_z)\nlet up = to_upper(name)\nlet lo = to_lower(name)\n'
+              'rule z_ts { %t2 == 1704067200 }\nrule upper { %up == "ISTANBUL" }\nrule lower { %lo == "istanbul" }\nrule plain_ts { %t1 == 1704067200 }\n')
 DATE_DOC = {"ts_plain": "2024-01-01T00:00:00", "ts_z": "2024-01-01T00:00:00Z", "name": "istanbul"}
 
 
